@@ -244,6 +244,11 @@ func init() {
 	getBytes := func(e *Engine, st *State, data *SliceV, path string) []Outcome {
 		root, ok := e.docOf(st, data)
 		if !ok {
+			if e.plainSymbolic(st, data) {
+				// bytes whose JSON structure is symbolic: run the real gjson code on them
+				getFn := e.prog.ImportedPackage("github.com/tidwall/gjson").Func("Get")
+				return e.callFunction(st, getFn, []Value{e.sliceToStr(st, data), e.StrConst(path)}, nil)
+			}
 			return one(st, e.gjResult(st, nil))
 		}
 		var outs []Outcome
@@ -257,6 +262,9 @@ func init() {
 	})
 	reg("github.com/tidwall/gjson.Get", func(e *Engine, st *State, args []Value, fn *ssa.Function) []Outcome {
 		s := args[0].(*StrV)
+		if _, conc := s.Concrete(); s.Doc == nil && !conc {
+			return e.mergeOutcomes(e.execFunction(fn, args, nil, st))
+		}
 		root, ok := e.docOfStr(st, s)
 		if !ok {
 			return one(st, e.gjResult(st, nil))
@@ -307,6 +315,13 @@ func init() {
 		}
 		return e.mergeOutcomes(e.execFunction(fn, args, nil, st))
 	})
+	reg("github.com/tidwall/gjson.stringBytes", func(e *Engine, st *State, args []Value, fn *ssa.Function) []Outcome {
+		return one(st, e.newByteSlice(st, args[0].(*StrV)))
+	})
+	reg("github.com/tidwall/gjson.bytesString", func(e *Engine, st *State, args []Value, fn *ssa.Function) []Outcome {
+		return one(st, e.sliceToStr(st, args[0].(*SliceV)))
+	})
+	reg("github.com/tidwall/gjson.fillIndex", noop) // Result.Index is not used by the repository
 	// Result methods on document-backed results
 	withNode := func(f func(e *Engine, st *State, r *StructV, n *JNode, args []Value) []Outcome) Intrinsic {
 		return func(e *Engine, st *State, args []Value, fn *ssa.Function) []Outcome {
@@ -462,7 +477,8 @@ func init() {
 				}
 				return []Outcome{e.errTuple(st, FloatV(f), nil)}
 			}
-			panic(e.abort("strconv.ParseFloat on symbolic bytes"))
+			// the value is not modelled; it poisons any computation that later depends on it
+			return []Outcome{e.errTuple(st, &OpaqueFloatV{Why: "strconv.ParseFloat on symbolic bytes"}, nil)}
 		}
 		n := s.Doc.Root
 		if n.Kind == JNum {
